@@ -443,6 +443,11 @@ def assignStmt (s : St) (dn : String) (l r : XAtom) : M St := do
   let s ← ensureAssignDef s w
   let (o, i) := connectAssign lw rw
   let name := assignDefName w ++ "_" ++ toString s.acount
+  -- the table is keyed by name: had the file itself added ports to a module of that name, the rows below would not
+  -- fit it (in the real netlist that module is a different object) — refused
+  let rd ← getDef s (assignDefName w)
+  if rd.ports.map (fun p => p.pins.length) != [i.length, o.length] then
+    throw "unsupported: the assignment definition was changed by the file" else
   let d ← getDef s dn
   -- `create_child(name=…)`: a child of that name already there is a naming conflict (ValueError)
   if (instIdx d name).isSome then throw "value: instance name conflict" else
